@@ -199,6 +199,61 @@ func ruleMDOwned(r *Run) {
 			}
 		})
 	}
+	// and it accumulates: what successive SetHeader/SendHeader/SetTrailer calls give for one key is appended
+	// (metadata.Join, MD.Append, append(md[k], …)), never replaced (MD.Set, md[k] = vs): an interceptor and the
+	// handler each adding a value of the same key must both reach the client, in order
+	isStreamMD := func(v ssa.Value) (string, bool) {
+		for _, o := range p.origins(v, originOpts{}) {
+			if f := loadedField(o); f != nil && (f.Name() == "header" || f.Name() == "trailer") && isMDType(f.Type()) {
+				if ow := p.fieldOwner(f); len(ow) >= 6 && ow[:6] == "stream" {
+					return ow + "." + f.Name(), true
+				}
+			}
+		}
+		return "", false
+	}
+	replaced := 0
+	for _, fn := range p.ModuleFuncs() {
+		eachInstr(fn, func(in ssa.Instruction) {
+			switch x := in.(type) {
+			case *ssa.Call:
+				if calleeName(x) == "(google.golang.org/grpc/metadata.MD).Set" && len(x.Call.Args) > 0 {
+					if what, ok := isStreamMD(x.Call.Args[0]); ok {
+						replaced++
+						r.bad(fmt.Sprintf("%s/replaces:%s#%d", shortFunc(fn), what, replaced), in.Pos(), "%s is updated with MD.Set, which replaces the values an earlier SetHeader/SendHeader/SetTrailer call gave for the same key instead of appending to them: only the last caller's values reach the client", what)
+					}
+				}
+			case *ssa.MapUpdate:
+				what, ok := isStreamMD(x.Map)
+				if !ok {
+					return
+				}
+				appends := false
+				for _, o := range p.origins(x.Value, originOpts{}) {
+					if c, isC := o.(*ssa.Call); isC && calleeName(c) == "builtin.append" && len(c.Call.Args) > 0 {
+						for _, ao := range p.origins(c.Call.Args[0], originOpts{}) {
+							lk, isLk := ao.(*ssa.Lookup)
+							if ex, isEx := ao.(*ssa.Extract); isEx {
+								lk, isLk = ex.Tuple.(*ssa.Lookup)
+							}
+							if isLk {
+								if _, same := isStreamMD(lk.X); same {
+									appends = true
+								}
+							}
+						}
+					}
+				}
+				if !appends {
+					replaced++
+					r.bad(fmt.Sprintf("%s/replaces:%s#%d", shortFunc(fn), what, replaced), in.Pos(), "%s[key] is assigned a value that is not append(%s[key], …): the values an earlier call gave for the key are dropped", what, what)
+				}
+			}
+		})
+	}
+	if replaced == 0 && n > 0 {
+		r.ok("stream metadata/accumulates", token.NoPos, "no MD.Set / key assignment on a stream's accumulated header or trailer metadata")
+	}
 	if n == 0 {
 		r.undecided("stream header/trailer stores", token.NoPos, "no store into a stream's header/trailer metadata field found")
 	}
